@@ -242,6 +242,32 @@ func runC02(w *core.WorkerCtx, idx int) *core.CaseResult {
 	}
 
 	// ---- compare
+	// A target is identified everywhere by (final labels, URL) (C15): the same pair obtained by two
+	// different jobs is ONE target for kvass. Such pairs are compared across the jobs that share them:
+	// the target must be scraped under at least one of these jobs and under no other.
+	owners := map[string][]string{}
+	for j, set := range ref {
+		for k := range set {
+			owners[k] = append(owners[k], j)
+		}
+	}
+	for k, js := range owners {
+		if len(js) < 2 {
+			continue
+		}
+		res.AddStat("targets_shared_by_two_jobs", 1)
+		n := 0
+		for _, j := range js {
+			if kv[j][k] {
+				n++
+			}
+			delete(ref[j], k)
+			delete(kv[j], k)
+		}
+		if n == 0 {
+			res.Violate("C02/missing-targets/shared-by-jobs", "target %s is obtained by jobs %v in plain Prometheus and by none of them in the sharded pipeline", k, js)
+		}
+	}
 	for _, jc := range orig.ScrapeConfigs {
 		j := jc.JobName
 		f := feat[j]
@@ -353,7 +379,7 @@ func init() {
 			"non-trivial = the reference has at least one target; distinct = hash of configuration text and groups",
 		Assumptions: []string{
 			"the generator does not emit relabel programs that delete job or instance, params named _hash/_jobName/_scheme, or values needing YAML block scalars",
-			"targets are compared as sets of (public labels, URL): two Prometheus targets equal in both are one",
+			"targets are compared as sets of (public labels, URL): two Prometheus targets equal in both are one; a pair obtained by two different jobs (same labels incl. the job label, same URL) is one target by C15 and must be scraped under at least one of them",
 		},
 		NumCases: func(tier string) int {
 			if tier == "thorough" {
